@@ -3,9 +3,9 @@ import json, os
 import vlib
 
 QUICK = dict(Ops='{"fetch", "push", "merge"}', BranchSrc="{1, 2, 4, 6, 7}", BranchDst="{0, 1, 2, 4, 6}", TagSrc="{0, 2, 6}",
-             TagDst="{0, 2, 4}", Depths="{0, 1}", TagSpecs='{"none", "plain", "force"}')
+             TagDst="{0, 2, 4}", Depths="{0, 1}", TagSpecs='{"none", "plain", "force"}', TwinDst="{0, 1, 6}")
 THOROUGH = dict(Ops='{"fetch", "push", "merge"}', BranchSrc="{1, 2, 4, 6, 7}", BranchDst="{0, 1, 2, 3, 4, 6, 7}", TagSrc="{0, 2, 4, 6}",
-                TagDst="{0, 2, 4, 7}", Depths="{0, 1, 2}", TagSpecs='{"none", "plain", "force"}')
+                TagDst="{0, 2, 4, 7}", Depths="{0, 1, 2}", TagSpecs='{"none", "plain", "force"}', TwinDst="{0, 1, 4, 6}")
 
 
 def generate(tier, scen, seed, sample=None):
@@ -24,7 +24,8 @@ def generate(tier, scen, seed, sample=None):
             d = json.loads(line)
             # depth-limited fetches that may FOLLOW a tag (no refspec covers it) are all kept - a followed tag is
             # the one ref a fetch may put on a commit it received without its table; the rest is sampled
-            risky = d.get("op") == "fetch" and d.get("depth", 0) > 0 and d.get("mode") == "none"
+            risky = (d.get("op") == "fetch" and d.get("depth", 0) > 0 and d.get("mode") == "none") or \
+                (d.get("twin", 0) != 0 and (i + seed) % 2 == 0)
             if sample and (i * 7 + seed) % sample != 0 and not risky:
                 continue
             d["maxpack"] = packs[i % len(packs)]
